@@ -383,6 +383,9 @@ def run(ctx, eng):
     cm.include(ctx, eng, 'C11', {'FLOW.queue'},
                'settings changes race traffic: what the peer may use is what '
                'each SETTINGS frame announced, one value per frame, in order')
+    cm.include(ctx, eng, 'C07', {'TAB.event-fields'},
+               'the receiver\'s events reproduce the send: every documented '
+               'field of an event is there to be read, set or not')
     cm.include(ctx, eng, 'C08', {'TAB.inputs'},
                'a send is accepted where the connection state permits that '
                'frame type, on both ends: each call and each frame handler '
